@@ -48,7 +48,7 @@ theorem topic_ne_of_suffix (p a b s₁ s₂ : String)
 
 /-! ## association maps -/
 
-theorem alookup_upsert {κ β : Type} [DecidableEq κ] (m : List (κ × β)) (x y : κ) (v : β) :
+theorem bus_alookup_upsert {κ β : Type} [DecidableEq κ] (m : List (κ × β)) (x y : κ) (v : β) :
     alookup (upsert m x v) y = if x = y then some v else alookup m y := by
   induction m with
   | nil => simp [upsert, alookup]
@@ -65,7 +65,7 @@ theorem alookup_upsert {κ β : Type} [DecidableEq κ] (m : List (κ × β)) (x 
 theorem agetD_upsert {κ β : Type} [DecidableEq κ] (m : List (κ × β)) (x y : κ) (v d : β) :
     agetD (upsert m x v) y d = if x = y then v else agetD m y d := by
   unfold agetD
-  rw [alookup_upsert]
+  rw [bus_alookup_upsert]
   split <;> rfl
 
 theorem mem_sinsert {α : Type} [DecidableEq α] (s : List α) (x y : α) :
@@ -77,7 +77,7 @@ theorem mem_sinsert {α : Type} [DecidableEq α] (s : List α) (x y : α) :
     · rintro (h | rfl) <;> assumption
   · simp
 
-theorem nodup_sinsert {α : Type} [DecidableEq α] (s : List α) (x : α) (h : s.Nodup) :
+theorem bus_nodup_sinsert {α : Type} [DecidableEq α] (s : List α) (x : α) (h : s.Nodup) :
     (sinsert s x).Nodup := by
   unfold sinsert
   split
@@ -356,7 +356,7 @@ theorem subscribe_inv (hstrat : Stratified h ops rank) (n : Nat) (k : Cid) (Ts :
       · intro T'
         rw [hsub1]
         split
-        · exact nodup_sinsert _ _ (hwf.1 T)
+        · exact bus_nodup_sinsert _ _ (hwf.1 T)
         · exact hwf.1 T'
       · intro k' T'
         rw [hsub1]
